@@ -142,14 +142,15 @@ deriving Repr, DecidableEq
 
 /-- `new(big.Int).SetString(s, 10)`: optional sign, at least one digit, decimal digits only.
     Returns (negative?, magnitude). -/
-def parseBig10 (s : List Char) : Option (Bool × Nat) :=
-  let (neg, ds) := match s with
-    | '+' :: r => (false, r)
-    | '-' :: r => (true, r)
-    | r => (false, r)
+def parseDigits10 (ds : List Char) : Option Nat :=
   if ds.isEmpty then none
-  else if ds.all Char.isDigit then some (neg, Nat.ofDigitChars 10 ds 0)
+  else if ds.all Char.isDigit then some (Nat.ofDigitChars 10 ds 0)
   else none
+
+def parseBig10 : List Char → Option (Bool × Nat)
+  | '+' :: r => (parseDigits10 r).map (fun n => (false, n))
+  | '-' :: r => (parseDigits10 r).map (fun n => (true, n))
+  | r => (parseDigits10 r).map (fun n => (false, n))
 
 def ics20Tys : List FTy := [.dyn, .dyn, .dyn, .uint256, .dyn]
 
